@@ -4,7 +4,9 @@ package main
 import (
 	"bytes"
 	"fmt"
+	"io"
 	"reflect"
+	"strings"
 
 	"github.com/Tnze/go-mc/level"
 	"github.com/Tnze/go-mc/level/biome"
@@ -12,6 +14,7 @@ import (
 	"github.com/Tnze/go-mc/nbt"
 	"github.com/Tnze/go-mc/save"
 
+	"verif/inject"
 	"verif/ref/refnbt"
 	"verif/vm"
 )
@@ -32,6 +35,25 @@ type chunkDesc struct {
 	model       *chunkModel
 	entities    []beDesc
 	maxDistinct int // the greatest number of distinct states a section holds at the end of its history
+	packed      int // block entities whose packed byte PackXZ wrote
+	bigEntities int // block entities with a large length-prefixed part in their data
+	singleState int // sections that end single-valued with a state other than 0
+	singleBiome int // sections that end single-valued with a biome other than 0
+}
+
+// forceCls, when positive, is the number of candidate states of every section buildChunk makes; forceNbe, when not
+// negative, the number of block entities (see checkBig).
+var forceCls, forceNbe = 0, -1
+
+// bigPayloads makes buildChunk give a third of the block entities large data (see checkBig).
+var bigPayloads bool
+
+func manyInts(n int) []*refnbt.Value {
+	out := make([]*refnbt.Value, n)
+	for i := range out {
+		out[i] = refnbt.In(int32(i * 7))
+	}
+	return out
 }
 
 func (d *chunkDesc) wit() any {
@@ -56,6 +78,39 @@ func buildChunk(r *vm.Rand, secs int, maxDistinct int) (*level.Chunk, *chunkDesc
 		cls := []int{1, 2, 10, 16, 17, 30, 40, 70, 140, 256, 257, 320}[r.Intn(12)]
 		if cls > maxDistinct {
 			cls = maxDistinct
+		}
+		if forceCls > 0 {
+			cls = forceCls
+		}
+		// a section need not start out as air: the exported constructors take the value every position holds (a
+		// section wholly of stone or deepslate; far more often a section wholly of one biome other than id 0). Such
+		// a container is single-valued with a non-zero value: the only place where that value is on the wire and
+		// in the save form. The history then goes on from there
+		if r.Intn(4) == 0 {
+			v0 := []int{1, 79, 127, 128, 130, 16383, 16384, nStates - 1, airStates()[1], airStates()[2], r.Intn(nStates), r.Intn(nStates)}[r.Intn(12)]
+			s.States = level.NewStatesPaletteContainer(4096, level.BlocksState(v0))
+			for i := range d.model.blocks[si] {
+				d.model.blocks[si][i] = v0
+			}
+			if !refIsAir(block.StateID(v0)) {
+				s.BlockCount = 4096
+			}
+			d.ops = append(d.ops, fmt.Sprintf("section %d: made by NewStatesPaletteContainer(4096, %d), BlockCount %d", si, v0, s.BlockCount))
+			if cls == 1 && v0 != 0 {
+				d.singleState++
+			}
+		}
+		singleBiome := false
+		if r.Intn(3) == 0 {
+			b0 := 1 + r.Intn(nBiomes-1)
+			s.Biomes = level.NewBiomesPaletteContainer(64, level.BiomesState(b0))
+			for i := range d.model.biomes[si] {
+				d.model.biomes[si][i] = b0
+			}
+			d.ops = append(d.ops, fmt.Sprintf("section %d: biomes made by NewBiomesPaletteContainer(64, %d)", si, b0))
+			if singleBiome = r.Bool(); singleBiome {
+				d.singleBiome++
+			}
 		}
 		vals := make([]int, cls)
 		for i := range vals {
@@ -104,6 +159,9 @@ func buildChunk(r *vm.Rand, secs int, maxDistinct int) (*level.Chunk, *chunkDesc
 		d.ops = append(d.ops, fmt.Sprintf("section %d: %d SetBlock over %d candidate states", si, nset, cls))
 		// biomes
 		bcls := []int{1, 2, 3, 4, 5, 8, 9, 30}[r.Intn(8)]
+		if singleBiome {
+			bcls = 0 // the section keeps the one biome it was made with
+		}
 		for j := 0; j < bcls*2; j++ {
 			bi, bv := r.Intn(64), r.Intn(min(nBiomes, bcls*2))
 			if bcls == 30 && j%3 == 0 {
@@ -139,6 +197,9 @@ func buildChunk(r *vm.Rand, secs int, maxDistinct int) (*level.Chunk, *chunkDesc
 	case 2:
 		nbe = 130
 	}
+	if forceNbe >= 0 {
+		nbe = forceNbe
+	}
 	for j := 0; j < nbe; j++ {
 		var be level.BlockEntity
 		bd := beDesc{x: r.Intn(16), z: r.Intn(16), y: r.Intn(384) - 64, typ: r.Intn(30)}
@@ -150,13 +211,43 @@ func buildChunk(r *vm.Rand, secs int, maxDistinct int) (*level.Chunk, *chunkDesc
 		case 2:
 			bd.x, bd.z = 15, []int{0, 15}[r.Intn(2)]
 		}
-		// the packed byte: x in the high nibble, z in the low one (written here, not by PackXZ)
+		// the packed byte: x in the high nibble, z in the low one (written here; every other entity goes through
+		// PackXZ, and the independent reader of the wire form then expects the same byte of it)
 		be.XZ = int8(uint8(bd.x<<4 | bd.z))
+		if j%2 == 1 {
+			be.XZ = 0x5a
+			if !be.PackXZ(bd.x, bd.z) {
+				be.XZ = ^int8(uint8(bd.x<<4 | bd.z)) // refused although 0 <= x, z <= 15: shows as a wrong byte on the wire
+			}
+			d.packed++
+		}
 		be.Y = int16(bd.y)
 		be.Type = block.EntityType(bd.typ)
 		tree := &refnbt.Value{Tag: refnbt.Compound, Comp: []refnbt.Entry{{Name: "id", V: refnbt.St("minecraft:chest")}, {Name: "n", V: refnbt.In(int32(r.Int64B()))}}}
 		if r.Bool() {
 			tree.Comp = append(tree.Comp, refnbt.Entry{Name: "Items", V: &refnbt.Value{Tag: refnbt.List, Elem: refnbt.Compound}})
+		}
+		if bigPayloads && r.Intn(3) == 0 {
+			// data that is large in one of its length-prefixed parts: a byte array above the 64 KiB step of the
+			// readers, a long array above 4096 elements, a string and a member name on both sides of one length byte
+			var big refnbt.Entry
+			switch r.Intn(5) {
+			case 0:
+				big = refnbt.Entry{Name: "bytes", V: &refnbt.Value{Tag: refnbt.ByteArray, Bytes: r.Bytes(70000 + r.Intn(70000))}}
+			case 1:
+				big = refnbt.Entry{Name: "longs", V: &refnbt.Value{Tag: refnbt.LongArray, Longs: make([]int64, 4097+r.Intn(3000))}}
+				for i := range big.V.Longs {
+					big.V.Longs[i] = int64(r.Uint64())
+				}
+			case 2:
+				big = refnbt.Entry{Name: "text", V: refnbt.St(strings.Repeat("t", []int{255, 256, 300, 32767}[r.Intn(4)]))}
+			case 3:
+				big = refnbt.Entry{Name: strings.Repeat("n", []int{255, 256, 257, 1000}[r.Intn(4)]), V: refnbt.In(7)}
+			default:
+				big = refnbt.Entry{Name: "list", V: &refnbt.Value{Tag: refnbt.List, Elem: refnbt.Int, List: manyInts(4097 + r.Intn(500))}}
+			}
+			tree.Comp = append(tree.Comp, big, refnbt.Entry{Name: "after", V: refnbt.In(int32(j))})
+			d.bigEntities++
 		}
 		be.Data = nbt.RawMessage{Type: nbt.TagCompound, Data: refnbt.EncodePayload(tree)}
 		bd.payload = be.Data.Data
@@ -291,7 +382,26 @@ func checkNetwork(c *vm.Ctx, r *vm.Rand, ch *level.Chunk, d *chunkDesc, chain bo
 		c.Cover("net.into-empty-chunk")
 	}
 	in := append(append([]byte{}, buf.Bytes()...), 0xde, 0xad, 0xbe, 0xef)
-	rd := bytes.NewReader(in)
+	// the source: a bytes.Reader (what a packet body is), or a reader that hands out a few bytes per call, with and
+	// without ReadByte - "consumes exactly the bytes written" is then a statement about every helper that reads
+	// ahead, byte-wise or in one go
+	var rd io.Reader
+	var left func() int
+	source := "bytes.Reader"
+	switch r.Intn(4) {
+	case 0:
+		cr := &inject.ChunkReader{B: in, Plan: readPlans[r.Intn(len(readPlans))]}
+		rd, left, source = cr, func() int { return len(cr.Rest()) }, fmt.Sprintf("plain io.Reader handing out %v bytes per call", cr.Plan)
+	case 1:
+		cr := &inject.ChunkByteReader{ChunkReader: inject.ChunkReader{B: in, Plan: readPlans[r.Intn(len(readPlans))]}}
+		rd, left, source = cr, func() int { return len(cr.Rest()) }, fmt.Sprintf("io.Reader+io.ByteReader handing out %v bytes per call", cr.Plan)
+	default:
+		br := bytes.NewReader(in)
+		rd, left = br, br.Len
+	}
+	if source != "bytes.Reader" {
+		d.ops = append(d.ops, "network source: "+source)
+	}
 	var rn int64
 	if c.Guard("net/read", d.wit, func() { rn, err = dst.ReadFrom(rd) }) {
 		return false
@@ -300,8 +410,8 @@ func checkNetwork(c *vm.Ctx, r *vm.Rand, ch *level.Chunk, d *chunkDesc, chain bo
 		c.Violation("net/read-error", "reading a chunk the library wrote failed: "+err.Error(), d.wit())
 		return false
 	}
-	if rn != int64(buf.Len()) || rd.Len() != 4 {
-		c.Violation("net/read-count", fmt.Sprintf("Chunk.ReadFrom returned n=%d and left %d bytes unread; the chunk is %d bytes followed by 4", rn, rd.Len(), buf.Len()), d.wit())
+	if rn != int64(buf.Len()) || left() != 4 {
+		c.Violation("net/read-count", fmt.Sprintf("Chunk.ReadFrom returned n=%d and left %d bytes unread; the chunk is %d bytes followed by 4 (source: %s)", rn, left(), buf.Len(), source), d.wit())
 		return false
 	}
 	ok := true
@@ -327,9 +437,20 @@ func checkNetwork(c *vm.Ctx, r *vm.Rand, ch *level.Chunk, d *chunkDesc, chain bo
 		for i := range ch.BlockEntity {
 			a, b := ch.BlockEntity[i], dst.BlockEntity[i]
 			if a.XZ != b.XZ || a.Y != b.Y || a.Type != b.Type || a.Data.Type != b.Data.Type || !bytes.Equal(a.Data.Data, b.Data.Data) {
-				c.Violation("net/content/block-entity", fmt.Sprintf("block entity %d differs: %+v vs %+v", i, a, b), d.wit())
+				if len(a.Data.Data) > 200 || len(b.Data.Data) > 200 {
+					a.Data.Data, b.Data.Data = a.Data.Data[:min(200, len(a.Data.Data))], b.Data.Data[:min(200, len(b.Data.Data))]
+				}
+				c.Violation("net/content/block-entity", fmt.Sprintf("block entity %d differs: %+v vs %+v (data cut to 200 bytes here)", i, a, b), d.wit())
 				ok = false
 				return
+			}
+			// where the entity stands, asked of the received entity: the position it was given in the section
+			if i < len(d.entities) {
+				if x, z := b.UnpackXZ(); x != d.entities[i].x || z != d.entities[i].z {
+					c.Violation("net/content/block-entity-position", fmt.Sprintf("block entity %d was placed at x=%d z=%d (packed byte %#x); after the round trip UnpackXZ gives x=%d z=%d", i, d.entities[i].x, d.entities[i].z, uint8(b.XZ), x, z), d.wit())
+					ok = false
+					return
+				}
 			}
 		}
 	})
@@ -340,6 +461,27 @@ func checkNetwork(c *vm.Ctx, r *vm.Rand, ch *level.Chunk, d *chunkDesc, chain bo
 		}
 		if len(ch.BlockEntity) >= 128 {
 			c.Cover("net.entities.two-byte-count")
+		}
+		if len(ch.BlockEntity) >= 16384 {
+			c.Cover("net.entities.three-byte-count")
+		}
+		if d.packed > 0 && len(ch.BlockEntity) == len(d.entities) {
+			c.Cover("net.entities.packxz-unpackxz")
+		}
+		if d.bigEntities > 0 && len(ch.BlockEntity) == len(d.entities) {
+			c.Cover("net.entities.large-data")
+		}
+		switch {
+		case strings.HasPrefix(source, "plain"):
+			c.Cover("net.source.plain-reader-short-reads")
+		case strings.HasPrefix(source, "io.Reader+"):
+			c.Cover("net.source.byte-reader-short-reads")
+		}
+		if lastWireDataLen > 64<<10 {
+			c.Cover("net.data-array-above-64KiB")
+		}
+		if lastWireDataLen > 128<<10 {
+			c.Cover("net.data-array-above-128KiB")
 		}
 	}
 	if !ok {
@@ -431,6 +573,12 @@ func editAndRecount(c *vm.Ctx, r *vm.Rand, tgt *level.Chunk, d *chunkDesc, forme
 	return ok
 }
 
+// how many bytes a short-reading source hands out per call (cycled)
+var readPlans = [][]int{{1}, {1, 2, 3, 5, 7}, {4096}, {65536}, {3, 100000}, {2047, 2049}}
+
+// lastWireDataLen is the length of the data array in the network form wireMatchesModel read last.
+var lastWireDataLen int
+
 var hmNames = []string{"WORLD_SURFACE_WG", "WORLD_SURFACE", "OCEAN_FLOOR_WG", "OCEAN_FLOOR", "MOTION_BLOCKING", "MOTION_BLOCKING_NO_LEAVES"}
 
 func hms(c *level.Chunk) []*level.BitStorage {
@@ -496,6 +644,22 @@ func checkSave(c *vm.Ctx, r *vm.Rand, ch *level.Chunk, d *chunkDesc, throughFile
 		}
 		c.Cover(fmt.Sprintf("save.through-file.compression%d", comp))
 	}
+	// every section of the save form says which one it is (Y, counted from YPos); the list may hold them in any order
+	permuted := false
+	if len(s.Sections) > 1 && r.Intn(3) == 0 {
+		perm := append([]save.Section{}, s.Sections...)
+		for i := len(perm) - 1; i > 0; i-- {
+			j := r.Intn(i + 1)
+			perm[i], perm[j] = perm[j], perm[i]
+		}
+		s.Sections = perm
+		var ys []int
+		for _, sec := range perm {
+			ys = append(ys, int(sec.Y))
+		}
+		d.ops = append(d.ops, fmt.Sprintf("save.Chunk.Sections put in another order before ChunkFromSave: Y = %v, YPos = %d", ys, s.YPos))
+		permuted = true
+	}
 	var back *level.Chunk
 	if c.Guard("save/from", d.wit, func() { back, err = level.ChunkFromSave(&s) }) {
 		return false
@@ -548,6 +712,9 @@ func checkSave(c *vm.Ctx, r *vm.Rand, ch *level.Chunk, d *chunkDesc, throughFile
 		return false
 	}
 	c.Cover("save.roundtrip")
+	if permuted {
+		c.Cover("save.sections-in-another-order")
+	}
 	if chain {
 		// the chunk that came back from the save form goes on into the network pipeline. ChunkToSave writes no
 		// block entities, so it has none
@@ -831,6 +998,9 @@ func run(c *vm.Ctx) {
 		if i%7 == 0 {
 			secs = 24
 		}
+		if i%5 == 3 {
+			secs = 1 + r.Intn(24) // "1..24 sections": the counts in between as well
+		}
 		ch, d := buildChunk(r, secs, 320)
 		c.Eval(vm.HashStr("chunk", fmt.Sprint(c.Shard, i, secs)), true)
 		c.Cover(fmt.Sprintf("chunk.sections=%d", secs))
@@ -841,12 +1011,30 @@ func run(c *vm.Ctx) {
 		if !sourceMatchesModel(c, ch, d) {
 			continue
 		}
-		checkNetwork(c, r, ch, d, true)
+		okNet := checkNetwork(c, r, ch, d, true)
 		// the save form: sections holding more than 256 distinct states use direct ids in memory
-		checkSave(c, r, ch, d, c.Thorough() || i%4 == 0, true)
+		okSave := checkSave(c, r, ch, d, c.Thorough() || i%4 == 0, true)
+		if okNet && okSave {
+			if d.singleState > 0 {
+				c.Cover("chunk.single-valued-section.state-other-than-0")
+			}
+			if d.singleBiome > 0 {
+				c.Cover("chunk.single-valued-section.biome-other-than-0")
+			}
+			if secs&(secs-1) != 0 && secs != 24 {
+				c.Cover("chunk.sections-between-the-powers-of-two")
+			}
+		}
 		if i < 1 {
 			c.Sample("chunk", d.wit())
 		}
+	}
+	er := c.Rand("exact")
+	for i := 0; i < c.Scale(16, 160); i++ {
+		checkExactPalettes(c, er)
+	}
+	if c.Shard == 1%c.NShards {
+		checkBig(c, c.Rand("big"))
 	}
 	checkClassifiers(c)
 	tr := c.Rand("together")
